@@ -776,8 +776,9 @@ template <class PH> static void run_powerset_chain(long id, Rng& r, dimension_ty
     x.omega_reduce();
   } catch (...) { jl("exc " + pplv::exc_class() + " start"); jl("endchain 0 exc"); return; }
   long step = 0; const char* status = "limit";
-  for (; step < g_limit; ++step) {
+  for (; step < std::min(g_limit, 40L); ++step) {
     try {
+      if (x.size() > 10) { status = "capped"; break; }    // work guard: not judged
       // hull of x (closed) to aim just outside
       C_Polyhedron hull(n, EMPTY);
       for (typename PS::const_iterator i = x.begin(); i != x.end(); ++i) hull.upper_bound_assign(closed_hull_of(i->pointset()));
@@ -846,8 +847,9 @@ static void run_powerset_grid_chain(long id, Rng& r, dimension_type n) {
   try { unsigned k = 1 + r.below(2); for (unsigned i = 0; i < k; ++i) x.add_disjunct(rnd_grid(r, n)); x.omega_reduce(); }
   catch (...) { jl("exc " + pplv::exc_class() + " start"); jl("endchain 0 exc"); return; }
   long step = 0; const char* status = "limit";
-  for (; step < g_limit; ++step) {
+  for (; step < std::min(g_limit, 40L); ++step) {
     try {
+      if (x.size() > 10) { status = "capped"; break; }
       PG piece(n, EMPTY); bool found = false;
       for (int attempt = 0; attempt < 14 && !found; ++attempt) {
         Grid_Generator_System pg; pg.insert(rnd_grid_point(r, n, 3 + attempt));
